@@ -1,5 +1,5 @@
 (* C06 - Unknown options, extensions and entity members are skipped, not fatal. *)
-From Ctap Require Import Base Schema Wire Utf8 Typed Procs Inst Tables CborItem WireP SkipP TypedP EntriesP FramingP.
+From Ctap Require Import Base Schema Wire Utf8 Typed Procs Inst Tables CborItem WireP SkipP TypedP EntriesP FramingP ObRequestSide.
 Local Open Scope string_scope.
 Local Open Scope Z_scope.
 
